@@ -5,16 +5,30 @@
 #include "common.h"
 
 #ifndef STORAGE
-#define STORAGE 1       // 1: value-storing Storage with == and <     0: EmptyAnyStorage
+#define STORAGE 1       // 1: value-storing Storage with == and <     0: EmptyAnyStorage     2: value-storing Storage constructible from ANY type
+#endif
+#ifndef DIGW
+#define DIGW 64         // width of the Digester's result: 64 (= size_t) or 128 (wider than size_t: the digest must still be kept whole)
 #endif
 #ifndef MAPK
 #define MAPK 0          // 0: laws only   1: EventDispatcher with std::map   2: with std::unordered_map
 #endif
 
+#if DIGW == 128
+typedef unsigned __int128 DigT;
+struct Val { uint64_t dig; uint64_t dighi; uint32_t v; uint32_t tag; };
+static inline DigT fullDig(const Val & x) { return ((DigT)x.dighi << 64) | x.dig; }
+#else
+typedef uint64_t DigT;
 struct Val { uint64_t dig; uint32_t v; uint32_t tag; };
-template <typename T> struct Dig { uint64_t operator()(const T & x) const { return x.dig; } };
+static inline DigT fullDig(const Val & x) { return x.dig; }
+#endif
+template <typename T> struct Dig;
+// the digest of an id object is its digest (as std::hash<AnyId> does for the default Digester)
+template <typename S> static inline DigT fullDig(const eventpp::AnyId<Dig, S> & id) { return id.getDigest(); }
+template <typename T> struct Dig { DigT operator()(const T & x) const { return fullDig(x); } };
 // AnyId computes DigestType from Digester<int>
-template <> struct Dig<int> { uint64_t operator()(const int & x) const { return (uint64_t)x; } };
+template <> struct Dig<int> { DigT operator()(const int & x) const { return (DigT)x; } };
 
 struct Sto {
 	uint32_t v; uint32_t tag;
@@ -23,7 +37,19 @@ struct Sto {
 	bool operator==(const Sto & o) const { return tag == o.tag && v == o.v; }
 	bool operator<(const Sto & o) const { return tag < o.tag || (tag == o.tag && v < o.v); }
 };
-#if STORAGE
+// like Sto, but constructible from a value of any type (as std::any-like storages are): anything that is not a Val is stored as "foreign"
+struct GSto {
+	uint32_t v; uint32_t tag;
+	GSto() : v(0), tag(0) {}
+	template <typename T> GSto(const T &) : v(0), tag(0xffffu) {}
+	GSto(const Val & x) : v(x.v), tag(x.tag) {}
+	GSto(const GSto &) = default;
+	bool operator==(const GSto & o) const { return tag == o.tag && v == o.v; }
+	bool operator<(const GSto & o) const { return tag < o.tag || (tag == o.tag && v < o.v); }
+};
+#if STORAGE == 2
+using Id = eventpp::AnyId<Dig, GSto>;
+#elif STORAGE
 using Id = eventpp::AnyId<Dig, Sto>;
 #else
 using Id = eventpp::AnyId<Dig>;
@@ -32,6 +58,9 @@ using Id = eventpp::AnyId<Dig>;
 static Val mk()
 {
 	Val x; x.dig = vf_nondet_u64(); x.v = vf_nondet_u32(); x.tag = vf_nondet_u32() & 1u;
+#if DIGW == 128
+	x.dighi = vf_nondet_u64();
+#endif
 #if MAPK == 2
 	// hashed map: bucket index = digest % bucket_count is a 64-bit remainder the solver has to bit-blast; keep the
 	// digest to 8 significant bits here (stated bound; every bucket/collision pattern of <= 7 buckets stays reachable)
@@ -54,9 +83,9 @@ extern "C" void harness()
 {
 	Val va = mk(), vb = mk(), vc = mk();
 	// the digest is a function of the value
-	vf_assume(! sameValue(va, vb) || va.dig == vb.dig);
-	vf_assume(! sameValue(va, vc) || va.dig == vc.dig);
-	vf_assume(! sameValue(vb, vc) || vb.dig == vc.dig);
+	vf_assume(! sameValue(va, vb) || fullDig(va) == fullDig(vb));
+	vf_assume(! sameValue(va, vc) || fullDig(va) == fullDig(vc));
+	vf_assume(! sameValue(vb, vc) || fullDig(vb) == fullDig(vc));
 #if MAPK == 0
 	Id a(va), b(vb), c(vc);
 	bool ab = a == b, ba = b == a, bc = b == c, ac = a == c;
@@ -74,11 +103,19 @@ extern "C" void harness()
 	vf_assert(! ab || std::hash<Id>()(a) == std::hash<Id>()(b), 169);   // equal ids hash equally
 #if STORAGE
 	vf_assert(ab == sameValue(va, vb), 170);                  // colliding digests stay distinct ids; equal values are equal ids
-	if(va.dig == vb.dig && ! sameValue(va, vb)) vf_cover(COV_COLLISION);
+	if(fullDig(va) == fullDig(vb) && ! sameValue(va, vb)) vf_cover(COV_COLLISION);
 #else
-	vf_assert(ab == (va.dig == vb.dig), 171);                 // without storage: equal exactly when the digests are
-	if(va.dig == vb.dig && ! sameValue(va, vb)) vf_cover(COV_COLLISION);
+	vf_assert(ab == (fullDig(va) == fullDig(vb)), 171);       // without storage: equal exactly when the digests are
+	if(fullDig(va) == fullDig(vb) && ! sameValue(va, vb)) vf_cover(COV_COLLISION);
 #endif
+	{	// copies of an id (from a non-const lvalue, a const lvalue, a temporary) are the same id
+		Id a2 = a; const Id & ca = a; Id a3 = ca; Id a4 = Id(va); Id a5(std::move(a4));
+		vf_assert(a2 == a && a3 == a && a5 == a, 179);
+		vf_assert(! (a2 < a) && ! (a < a2) && ! (a3 < a) && ! (a < a3), 180);
+		vf_assert(std::hash<Id>()(a2) == std::hash<Id>()(a) && std::hash<Id>()(a3) == std::hash<Id>()(a), 181);
+		vf_assert((a2 == b) == ab && (a2 < b) == lab && (b < a2) == lba, 182);
+		Id d; d = a; vf_assert(d == a, 183);                  // copy assignment
+	}
 	if(ab) vf_cover(COV_EQUAL_IDS);
 	if(lab) vf_cover(COV_LESS);
 #else
@@ -89,18 +126,28 @@ extern "C" void harness()
 #endif
 	D * d = new D();
 	Val vd = mk();
-	vf_assume(! sameValue(va, vd) || va.dig == vd.dig);
-	vf_assume(! sameValue(vb, vd) || vb.dig == vd.dig);
-	vf_assume(! sameValue(vc, vd) || vc.dig == vd.dig);
+	vf_assume(! sameValue(va, vd) || fullDig(va) == fullDig(vd));
+	vf_assume(! sameValue(vb, vd) || fullDig(vb) == fullDig(vd));
+	vf_assume(! sameValue(vc, vd) || fullDig(vc) == fullDig(vd));
 #if MAPK == 2
 	// hashed map: libstdc++ starts with 13 buckets, so every insertion/lookup of a symbolic digest forks 13 ways; two registered ids here
-	d->appendListener(Id(va), Cb(1)); d->appendListener(Id(vb), Cb(2));
+	// registered through an id object (non-const lvalue) and through a raw value (converted by the dispatcher)
+	{ Id ida(va); d->appendListener(ida, Cb(1)); } d->appendListener(vb, Cb(2));
 #else
-	d->appendListener(Id(va), Cb(1)); d->appendListener(Id(vb), Cb(2)); d->appendListener(Id(vc), Cb(3));
+	{ Id ida(va); d->appendListener(ida, Cb(1)); } d->appendListener(vb, Cb(2)); d->appendListener(Id(vc), Cb(3));
 #endif
 	uint32_t arg = vf_nondet_u32();
 	g_tr.clear();
-	d->dispatch(Id(vd), arg);
+	// dispatched by a temporary id, by an id object the caller keeps, by a const id, or by the raw value
+#ifndef DISPV
+#define DISPV -1
+#endif
+	switch(DISPV >= 0 ? (unsigned)DISPV : vf_choose(4)) {
+	case 0: d->dispatch(Id(vd), arg); break;
+	case 1: { Id idd(vd); d->dispatch(idd, arg); break; }
+	case 2: { const Id idd(vd); d->dispatch(idd, arg); break; }
+	default: d->dispatch(vd, arg); break;
+	}
 	// exactly the listeners registered under an id equal to the dispatched one, in registration order
 #if STORAGE
 	bool e1 = sameValue(va, vd), e2 = sameValue(vb, vd), e3 = sameValue(vc, vd);
